@@ -3,9 +3,11 @@
    Model: C16/Model.v (code-shaped transcription of ToInt/ToBigInt, the BigNumberValue classification,
    every Convert* function, and the two functions of github.com/onflow/fixed-point used by the
    rounding converters). Specification: C16/Spec.v.
-   The pinned tree violates the property on eight input classes; the full statement is kept as
-   C16.Refute.C16_statement(_round), refuted below, and proved under the guards that exclude exactly
-   those classes. *)
+   The floor-instead-of-truncation defect of conversions from negative Fix128 values was repaired in
+   /repo (fix: 5739f35); the model is the repaired code and C16_from_fix128_to_integer is the full
+   theorem for those conversions. The tree still departs from the property on the input classes
+   conv_defect / conv_round_defect; the full statement is kept as C16.Refute.C16_statement(_round),
+   refuted below, and proved under the guards that exclude exactly those classes. *)
 From CV Require Import Num.IntProofs C16.Model C16.ProofsBase C16.ProofsInt C16.ProofsFix C16.ProofsRound C16.ProofsSpec C16.Refute.
 
 (* All 27 x 27 (source kind, target kind) pairs (integer kinds of any width n > 0), ALL source values
@@ -18,8 +20,17 @@ Theorem C16_conversions_partial : forall s t x,
 Proof. exact conv_model_correct. Qed.
 Print Assumptions C16_conversions_partial.
 
-(* The pairs without any defect class (everything except Fix128 -> integer/Fix64/UFix64,
-   UFix128 -> Fix64/UFix64, Int128/Int256/Int -> Fix64): the property holds for every source value. *)
+(* Every source kind (in particular Fix128, negative values with a fractional part included) to
+   every integer kind, ALL source values, no guard: the integer part truncated toward zero,
+   exact-or-fail, modulo 2^n for Word targets. *)
+Theorem C16_to_integer_kinds : forall s k x,
+  wf_nkind s -> wf_kind k -> n_in_range s x ->
+  conv_model s (NI k) x = spec_conv s (NI k) x.
+Proof. exact int_target_correct. Qed.
+Print Assumptions C16_to_integer_kinds.
+
+(* The pairs without any defect class (everything except Fix128/UFix128 -> Fix64/UFix64 and
+   Int128/Int256/Int -> Fix64): the property holds for every source value. *)
 Theorem C16_conversions_defect_free_pairs : forall s t x,
   wf_nkind s -> wf_nkind t -> n_in_range s x -> defect_free_pair s t ->
   conv_model s t x = spec_conv s t x.
@@ -35,13 +46,6 @@ Theorem C16_rounding_partial : forall s t m x,
 Proof. exact conv_model_round_correct. Qed.
 Print Assumptions C16_rounding_partial.
 
-(* what the code does on the first defect class: it converts the FLOOR of a negative Fix128 *)
-Theorem C16_fix128_to_integer_floors : forall k x,
-  wf_kind k -> n_in_range NFix128 x -> x < 0 -> x mod e24 <> 0 ->
-  conv_model NFix128 (NI k) x = target_fit (NI k) (Z.quot x e24 - 1).
-Proof. exact int_target_floor_defect. Qed.
-Print Assumptions C16_fix128_to_integer_floors.
-
 (* the full statements are false for the faithful model *)
 Theorem C16_conversions_refuted : ~ C16_statement.
 Proof. exact statement_refuted. Qed.
@@ -52,33 +56,16 @@ Proof. exact statement_round_refuted. Qed.
 Print Assumptions C16_rounding_refuted.
 
 (* one witness per defect class: model result (= observed on the real code) and required result *)
-Theorem C16_fix128_to_int_refuted :
-  conv_model NFix128 (NI (KSigned 8)) (-1500000000000000000000000) = Ok (-2) /\
-  spec_conv NFix128 (NI (KSigned 8)) (-1500000000000000000000000) = Ok (-1).
-Proof. exact fix128_to_int_refuted. Qed.
-Print Assumptions C16_fix128_to_int_refuted.
-
-Theorem C16_fix128_to_uint_refuted :
-  conv_model NFix128 (NI (KUnsigned 8)) (-1) = Err Underflow /\
-  spec_conv NFix128 (NI (KUnsigned 8)) (-1) = Ok 0.
-Proof. exact fix128_to_uint_refuted. Qed.
-Print Assumptions C16_fix128_to_uint_refuted.
-
-Theorem C16_fix128_to_word_refuted :
-  conv_model NFix128 (NI (KWord 8)) (-1500000000000000000000000) = Ok 254 /\
-  spec_conv NFix128 (NI (KWord 8)) (-1500000000000000000000000) = Ok 255.
-Proof. exact fix128_to_word_refuted. Qed.
-Print Assumptions C16_fix128_to_word_refuted.
-
-Theorem C16_fix128_to_fix64_refuted :
-  conv_model NFix128 NFix64 (-1) = Ok (-1) /\ spec_conv NFix128 NFix64 (-1) = Ok 0.
-Proof. exact fix128_to_fix64_refuted. Qed.
-Print Assumptions C16_fix128_to_fix64_refuted.
-
 Theorem C16_fix128_to_ufix64_refuted :
   conv_model NFix128 NUFix64 (-1) = Err Underflow /\ spec_conv NFix128 NUFix64 (-1) = Ok 0.
 Proof. exact fix128_to_ufix64_refuted. Qed.
 Print Assumptions C16_fix128_to_ufix64_refuted.
+
+Theorem C16_range_before_trunc_low_refuted :
+  conv_model NFix128 NFix64 (-9223372036854775808 * e16 - 1) = Err Underflow /\
+  spec_conv NFix128 NFix64 (-9223372036854775808 * e16 - 1) = Ok (-9223372036854775808).
+Proof. exact range_before_trunc_low_refuted. Qed.
+Print Assumptions C16_range_before_trunc_low_refuted.
 
 Theorem C16_range_before_trunc_refuted :
   conv_model NUFix128 NFix64 (9223372036854775807 * e16 + 1) = Err Overflow /\
@@ -157,6 +144,11 @@ Example C16_ex :
   conv_model (NI KInt) NFix64 92233720369 = Err Overflow /\
   conv_model (NI KInt) NFix64 (-92233720369) = Err Underflow /\
   conv_model NFix128 NFix64 15000000000000000 = Ok 1 /\
+  conv_model NFix128 (NI (KSigned 8)) (-1500000000000000000000000) = Ok (-1) /\
+  conv_model NFix128 (NI (KUnsigned 8)) (-1) = Ok 0 /\
+  conv_model NFix128 (NI (KWord 8)) (-1500000000000000000000000) = Ok 255 /\
+  conv_model NFix128 NFix64 (-1) = Ok 0 /\
+  conv_model NFix128 NFix64 (-10000000000000001) = Ok (-1) /\
   conv_model_round NFix128 NFix64 RAwayFromZero 15000000000000000 = Ok 2 /\
   conv_model_round NFix128 NFix64 RNearestHalfEven 15000000000000000 = Ok 2 /\
   conv_model_round NFix128 NFix64 RNearestHalfEven 25000000000000000 = Ok 2 /\
@@ -167,13 +159,14 @@ Proof. vm_compute. repeat split. Qed.
 
 (* the guards of the partial theorems hold on ordinary inputs and fail on the witnesses *)
 Example C16_guard_ex :
-  ~ conv_defect NFix128 (NI (KSigned 8)) (-2 * e24) /\
+  ~ conv_defect NFix128 NFix64 (-1) /\
   ~ conv_defect NFix128 NFix64 (3 * e16) /\
+  ~ conv_defect NFix128 NUFix64 (- e16) /\
   ~ conv_round_defect NFix128 NFix64 RAwayFromZero 1 /\
-  conv_defect NFix128 (NI (KSigned 8)) (-1500000000000000000000000) /\
+  conv_defect NFix128 NUFix64 (-1) /\
   conv_round_defect NFix128 NFix64 RTowardZero 1.
 Proof.
-  unfold conv_defect, conv_round_defect, round_zero_defect, e16, e24, max_int64.
-  repeat split; try (intros [H1 H2]; vm_compute in H2; congruence); try lia;
-    try (vm_compute; congruence).
+  unfold conv_defect, conv_round_defect, round_zero_defect, e16, e24, max_int64, min_int64, max_uint64.
+  repeat split; try lia; try (vm_compute; congruence);
+    try (intros [H1 H2]; vm_compute in H2; congruence).
 Qed.
